@@ -194,29 +194,40 @@ def case_contest(tid, N, crossings, audit_type, use_style, rng):
 
 
 def case_audit(tid, N, crossings_by_contest, rng):
-    """Audit.find_sample_size over several contests: each contest's estimate is the largest among ITS assertions"""
+    """Audit.find_sample_size over several contests: each contest's estimate is the largest among ITS assertions that
+    are not yet confirmed; with or without style information, from assumed rates or from the data seen so far"""
     from shangrla.core.Audit import CVR
     from . import compare
     names = [f"k{j}" for j in range(len(crossings_by_contest))]
-    rec = {"kind": "audit", "tid": tid, "N": N, "cross": [[c if c else N for c in cr] for cr in crossings_by_contest]}
+    style = rng.random() < 0.6
+    with_data = (not style) or rng.random() < 0.4
+    proved = [[rng.random() < 0.25 for _ in cr] for cr in crossings_by_contest]
+    rec = {"kind": "audit", "tid": tid, "N": N, "cross": [[c if c else N for c in cr] for cr in crossings_by_contest],
+           "proved": proved, "style": style, "with_data": with_data}
 
     def go():
         contests = {}
-        for name, cr in zip(names, crossings_by_contest):
-            con = mk_contest("CARD_COMPARISON", "PLURALITY", N, float(ALPHA), use_style=True)
+        for name, cr, pr in zip(names, crossings_by_contest, proved):
+            con = mk_contest("CARD_COMPARISON", "PLURALITY", N, float(ALPHA), use_style=style)
             con.id = con.name = name
             con.assertions = {}
             for k, c in enumerate(cr):
                 hh = {"c": c, "seen": []}
                 a = mk_assertion(con, N, hh, margin=0.2 + k / 10, loser=("L" if k % 2 == 0 else "X"))
+                a.proved = pr[k]
                 con.assertions[f"a{k}"] = a
             con.sample_size = rng.choice([None, 0, N, 2 * N])
             contests[name] = con
-        audit = compare.mk_audit(True, N)
+        audit = compare.mk_audit(style, N)
         audit.error_rate_1, audit.error_rate_2, audit.reps = 0.25, 0, None
         cvrs = [CVR(id=f"c{j}", votes={n_: {"W": 1} for n_ in names}, sample_num=j + 1, sampled=False) for j in range(N)]
-        audit.find_sample_size(contests, cvrs=cvrs)
-        return {"sizes": [int(contests[n_].sample_size) for n_ in names]}
+        kw = {}
+        if with_data:       # two cards seen so far, no discrepancy
+            for n_ in names:
+                contests[n_].sample_threshold = 2
+            kw = dict(mvr_sample=[CVR(id=f"c{j}", votes={n_: {"W": 1} for n_ in names}) for j in range(2)], cvr_sample=cvrs[:2])
+        total = audit.find_sample_size(contests, cvrs=cvrs, **kw)
+        return {"sizes": [int(contests[n_].sample_size) for n_ in names], "total": int(total)}
     return guard(rec, go)
 
 
